@@ -2,7 +2,7 @@ import SfVerif.Model.Ctx
 import SfVerif.Lemmas.Hdr
 import SfVerif.Lemmas.F64Exact
 import SfVerif.Lemmas.Codes
-import SfVerif.Lemmas.Lazy2
+import SfVerif.Lemmas.Lazy7
 /-! C01 — lazy reads equal eager decoding for every document and access history. -/
 namespace SfVerif.Props.C01
 open SfVerif SfVerif.Gen
@@ -68,5 +68,59 @@ theorem C01_complete_view_end_unique (b : Bytes) (pos e1 e2 f : Nat) (n1 n2 : No
     (h1 : Done b pos n1 e1) (h2 : Done b pos n2 e2) (hs : (skip b f pos).isSome) : e1 = e2 := by
   obtain ⟨x, hx⟩ := Option.isSome_iff_exists.mp hs
   rw [← done_skip_agree h1 f x hx, ← done_skip_agree h2 f x hx]
+
+
+/-- **element by index equals eager decoding, whatever the history**: from *any* correct partial
+    view of an array (whatever prefix was visited before, through whatever handles, finished or
+    not), if the sequential decoder reaches the header of element `i` by skipping the `i`
+    elements before it, `get_at_index(i)` succeeds, leaves a correct partial view, and the node
+    now stored at index `i` is a correct view of exactly the value at that offset (so its kind,
+    scalar value, string extent and length are the header's). -/
+theorem C01_array_element (b : Bytes) (f pos len body : Nat) (hh : readHdr b pos = some (.arr len body))
+    (hf : b.size - body < f) (elems : NodeList) (e : Nat) (hinv : Inv b pos (.arr len elems e))
+    (i : Nat) (hi : i < len) (p : Nat) (h : Hdr) (hp : skipN b f i body = some p) (hhp : readHdr b p = some h) :
+    ∃ elems' e', arrGet b f len elems e i = (.arr len elems' e', .at i) ∧ Inv b pos (.arr len elems' e') ∧
+      ∃ c, elems'.get? i = some c ∧ Inv b p c :=
+  arrGet_ok hh hf hinv hi hp hhp
+
+/-- **value and key of pair `i` of an object equal eager decoding, whatever the history** -/
+theorem C01_object_pair (b : Bytes) (f pos len body : Nat) (hh : readHdr b pos = some (.map len body))
+    (hf : b.size - body < f) (pairs : PairList) (e : Nat) (hinv : Inv b pos (.obj len pairs e))
+    (i : Nat) (hi : i < len) (p ko kl ke : Nat) (h : Hdr) (hp : skipPairs b f i body = some p)
+    (hk : readHdr b p = some (.scalar (.str ko kl) ke)) (hhv : readHdr b ke = some h) :
+    ∃ pairs' e', objGet b f len pairs e i = (.obj len pairs' e', .at i) ∧ Inv b pos (.obj len pairs' e') ∧
+      ∃ c, pairs'.get? i = some (ko, kl, c) ∧ Inv b ke c :=
+  objGet_ok hh hf hinv hi hp hk hhv
+
+/-- **property by name equals the specification, whatever the history**: `specProp` walks the
+    pairs in document order and answers with the first pair whose key bytes equal the name
+    (duplicates resolve to the first), "missing" when there is none. From any correct partial
+    view the call returns that pair (a correct view of the value at the specification's offset)
+    or `null`. -/
+theorem C01_property_by_name (b : Bytes) (f pos len body : Nat) (q : Bytes)
+    (hh : readHdr b pos = some (.map len body)) (hf : b.size - body < f) (pairs : PairList) (e : Nat)
+    (hinv : Inv b pos (.obj len pairs e)) (hne : specProp b f q len body 0 ≠ .err) :
+    ∃ pairs' e', Inv b pos (.obj len pairs' e') ∧
+      ((∃ i ke, specProp b f q len body 0 = .found i ke ∧
+          objProp b f len pairs e q = (.obj len pairs' e', .at i) ∧
+          ∃ ko kl c, pairs'.get? i = some (ko, kl, c) ∧ Inv b ke c) ∨
+       (specProp b f q len body 0 = .missing ∧ objProp b f len pairs e q = (.obj len pairs' e', .missing))) :=
+  objProp_ok hh hf hinv hne
+
+/-- a correct view of the value at an offset carries that offset's header: same kind, same scalar,
+    same declared length, same string extent — what the call boxes and returns -/
+theorem C01_view_matches_header (b : Bytes) (pos : Nat) (n : Node) (h : Inv b pos n) :
+    (∀ v, n = .scalar v → ∃ e, readHdr b pos = some (.scalar v e)) ∧
+    (∀ len elems e, n = .arr len elems e → ∃ body, readHdr b pos = some (.arr len body)) ∧
+    (∀ len pairs e, n = .obj len pairs e → ∃ body, readHdr b pos = some (.map len body)) := by
+  cases h <;> refine ⟨?_, ?_, ?_⟩ <;> intros <;> simp_all
+
+/-- non-vacuity: the premises are satisfiable — `[[1],[2],[3],7]`: the root is a correct partial
+    view, the eager walk reaches element 3 at offset 7 and its header reads -/
+example : Inv #[0x94, 0x91, 1, 0x91, 2, 0x91, 3, 7] 0 (.arr 4 .nil 1) ∧
+    skipN #[0x94, 0x91, 1, 0x91, 2, 0x91, 3, 7] 9 3 1 = some 7 ∧
+    (readHdr #[0x94, 0x91, 1, 0x91, 2, 0x91, 3, 7] 7).isSome = true := by
+  refine ⟨fresh_inv (h := .arr 4 1) (by decide), ?_, by decide⟩
+  simp [skipN, skip, readHdr, hdrOfMarker, hdrFix, arrHdr, mapHdr, strHdr]
 
 end SfVerif.Props.C01
